@@ -31,6 +31,7 @@ const W_COMPLETED_OK: u64 = 8;
 const W_HALF_CLOSE_LOCAL_FIRST: u64 = 16;
 const W_HALF_CLOSE_PEER_FIRST: u64 = 32;
 const W_CREDIT_WAIT: u64 = 64;
+const W_STUCK_LOCAL_SINK: u64 = 1 << 20;
 const W_COALESCED: u64 = 128;
 
 #[derive(Default)]
@@ -59,6 +60,9 @@ struct Local {
     partials: u32,
     fill_calls_this_poll: u32,
     coalesce: bool,
+    /// the local application does not take what the peer sent: writes (or flushes) stay Pending for ever
+    stuck_write: bool,
+    stuck_flush: bool,
 }
 
 #[derive(Clone)]
@@ -164,6 +168,10 @@ impl AsyncWrite for Scripted {
         if buf.is_empty() {
             return Poll::Ready(Ok(0));
         }
+        if l.stuck_write {
+            l.write_waker = Some(cx.waker().clone());
+            return Poll::Pending;
+        }
         // default: everything; alternatives: one byte, not ready, error
         let c = choose(&[Cost::Env, Cost::Env, Cost::Env, Cost::Env]);
         match c {
@@ -194,6 +202,10 @@ impl AsyncWrite for Scripted {
 
     fn poll_flush(self: Pin<&mut Self>, cx: &mut Context<'_>) -> Poll<io::Result<()>> {
         let mut l = self.0.borrow_mut();
+        if l.stuck_flush && !l.inn.is_empty() {
+            l.flush_waker = Some(cx.waker().clone());
+            return Poll::Pending;
+        }
         let c = choose(&[Cost::Env, Cost::Env, Cost::Env]);
         match c {
             0 => Poll::Ready(Ok(())),
@@ -253,20 +265,25 @@ struct Scn {
     peer_rwnd: u32,
     /// the peer returns credit only when the explorer fires the step (else right after each Push it receives)
     lazy_ack: bool,
+    /// "" | "write" | "flush": the local application stops taking data, so that local operation stays Pending for ever;
+    /// the other direction (local -> mux) must keep flowing and end with Finish; the bridge itself cannot complete
+    stuck: &'static str,
 }
 
 fn scenarios(thorough: bool) -> Vec<Scn> {
     let p = |b: &[u8]| PeerEv::Push(b.to_vec());
     let mut v = vec![
-        Scn { name: "local->mux only", local_out: 5, peer: vec![PeerEv::Finish], peer_rwnd: 4, lazy_ack: false },
-        Scn { name: "mux->local only", local_out: 0, peer: vec![p(b"\xb1\xb2\xb3"), p(b"\xb4"), PeerEv::Finish], peer_rwnd: 4, lazy_ack: false },
-        Scn { name: "both directions", local_out: 4, peer: vec![p(b"\xb1\xb2"), p(b"\xb3\xb4\xb5"), PeerEv::Finish], peer_rwnd: 4, lazy_ack: false },
-        Scn { name: "credit exhausted (window 1, lazy acknowledgements)", local_out: 7, peer: vec![p(b"\xb1"), PeerEv::Finish], peer_rwnd: 1, lazy_ack: true },
-        Scn { name: "peer resets mid-transfer", local_out: 6, peer: vec![p(b"\xb1\xb2"), PeerEv::Reset], peer_rwnd: 2, lazy_ack: false },
+        Scn { name: "local->mux only", local_out: 5, peer: vec![PeerEv::Finish], peer_rwnd: 4, lazy_ack: false, stuck: "" },
+        Scn { name: "mux->local only", local_out: 0, peer: vec![p(b"\xb1\xb2\xb3"), p(b"\xb4"), PeerEv::Finish], peer_rwnd: 4, lazy_ack: false, stuck: "" },
+        Scn { name: "both directions", local_out: 4, peer: vec![p(b"\xb1\xb2"), p(b"\xb3\xb4\xb5"), PeerEv::Finish], peer_rwnd: 4, lazy_ack: false, stuck: "" },
+        Scn { name: "credit exhausted (window 1, lazy acknowledgements)", local_out: 7, peer: vec![p(b"\xb1"), PeerEv::Finish], peer_rwnd: 1, lazy_ack: true, stuck: "" },
+        Scn { name: "peer resets mid-transfer", local_out: 6, peer: vec![p(b"\xb1\xb2"), PeerEv::Reset], peer_rwnd: 2, lazy_ack: false, stuck: "" },
     ];
+    v.push(Scn { name: "local application stops reading: local writes stay Pending", local_out: 5, peer: vec![p(b"\xb1\xb2"), p(b"\xb3")], peer_rwnd: 4, lazy_ack: false, stuck: "write" });
+    v.push(Scn { name: "local application stops reading: local flush stays Pending", local_out: 5, peer: vec![p(b"\xb1\xb2"), p(b"\xb3")], peer_rwnd: 4, lazy_ack: false, stuck: "flush" });
     if thorough {
-        v.push(Scn { name: "peer finishes first, long local tail", local_out: 9, peer: vec![PeerEv::Finish], peer_rwnd: 2, lazy_ack: true });
-        v.push(Scn { name: "window overrun by bridge impossible: 3 pushes then finish", local_out: 2, peer: vec![p(b"\xb1"), p(b"\xb2"), p(b"\xb3"), PeerEv::Finish], peer_rwnd: 3, lazy_ack: true });
+        v.push(Scn { name: "peer finishes first, long local tail", local_out: 9, peer: vec![PeerEv::Finish], peer_rwnd: 2, lazy_ack: true, stuck: "" });
+        v.push(Scn { name: "window overrun by bridge impossible: 3 pushes then finish", local_out: 2, peer: vec![p(b"\xb1"), p(b"\xb2"), p(b"\xb3"), PeerEv::Finish], peer_rwnd: 3, lazy_ack: true, stuck: "" });
     }
     v
 }
@@ -277,7 +294,7 @@ fn exec(sc: &Scn, render: bool) -> RunOutput {
     let cfg = SideCfg { opts: opts(E_RWND, 1), rng: vec![] };
     let mut w = World::one(UNBOUNDED_CAP, 0, &cfg);
     let mut raw = Raw::new(1, w.sim.link.clone());
-    let local = Rc::new(RefCell::new(Local { out: (0..sc.local_out).map(|i| 0xa1 + i as u8).collect(), ..Local::default() }));
+    let local = Rc::new(RefCell::new(Local { out: (0..sc.local_out).map(|i| 0xa1 + i as u8).collect(), stuck_write: sc.stuck == "write", stuck_flush: sc.stuck == "flush", ..Local::default() }));
     let result = Rc::new(RefCell::new(BridgeResult(None)));
     {
         let mux = w.mux(0);
@@ -320,10 +337,10 @@ fn exec(sc: &Scn, render: bool) -> RunOutput {
             if l.read_waker.is_some() {
                 extras.push("local-readable");
             }
-            if l.write_waker.is_some() {
+            if l.write_waker.is_some() && !l.stuck_write {
                 extras.push("local-writable");
             }
-            if l.flush_waker.is_some() {
+            if l.flush_waker.is_some() && !l.stuck_flush {
                 extras.push("local-flushed");
             }
             if l.shutdown_waker.is_some() {
@@ -533,6 +550,17 @@ fn exec(sc: &Scn, render: bool) -> RunOutput {
                 ),
             }
         }
+        (None, None) if !sc.stuck.is_empty() => {
+            // expected: the mux -> local direction cannot end. The opposite direction must not be held up by it.
+            wit |= W_STUCK_LOCAL_SINK;
+            if got_pushes != l.out || !finish_from_e {
+                push_viol(
+                    &mut viol,
+                    "halfclose.direction-held-up",
+                    format!("the local side does not take the peer's data (local {} stays Pending), and the local -> mux direction did not keep flowing: {:02x?} of {:02x?} relayed, Finish sent={finish_from_e}, local eof returned={}", sc.stuck, got_pushes, l.out, l.eof_returned),
+                );
+            }
+        }
         (None, None) => {
             if !horizon {
                 push_viol(
@@ -608,7 +636,7 @@ pub fn run(args: &Args) -> Report {
     let thorough = args.thorough();
     let mut cases = Vec::new();
     for sc in scenarios(thorough) {
-        cases.push(Case { try_unbounded: false, max_k: u32::MAX, label: format!("{} | local produces {} B, peer script {:?}, peer window {}, lazy_ack={}", sc.name, sc.local_out, sc.peer, sc.peer_rwnd, sc.lazy_ack), exec: Box::new(move |r| exec(&sc, r)) });
+        cases.push(Case { try_unbounded: false, max_k: u32::MAX, label: format!("{} | local produces {} B, peer script {:?}, peer window {}, lazy_ack={}{}", sc.name, sc.local_out, sc.peer, sc.peer_rwnd, sc.lazy_ack, if sc.stuck.is_empty() { String::new() } else { format!(", local {} never ready", sc.stuck) }), exec: Box::new(move |r| exec(&sc, r)) });
     }
     let plan = Plan {
         ks: if thorough { vec![0, 1, 2, 3, 4, 5] } else { vec![0, 1, 2] },
@@ -616,7 +644,7 @@ pub fn run(args: &Args) -> Report {
         fault: 0,
         total_wall: Duration::from_secs(if thorough { 1500 } else { 50 }),
         max_execs_per_case: 20_000_000,
-        required_witnesses: W_PARTIAL_WRITE | W_PENDING | W_ERR_INJECTED | W_COMPLETED_OK | W_HALF_CLOSE_LOCAL_FIRST | W_HALF_CLOSE_PEER_FIRST | W_CREDIT_WAIT | W_COALESCED,
+        required_witnesses: W_PARTIAL_WRITE | W_PENDING | W_ERR_INJECTED | W_COMPLETED_OK | W_HALF_CLOSE_LOCAL_FIRST | W_HALF_CLOSE_PEER_FIRST | W_CREDIT_WAIT | W_COALESCED | W_STUCK_LOCAL_SINK,
         adaptive: thorough,
         witness_names: &[
             ("partial_local_write", W_PARTIAL_WRITE),
@@ -627,12 +655,13 @@ pub fn run(args: &Args) -> Report {
             ("local_to_mux_flowed_after_peer_finish", W_HALF_CLOSE_PEER_FIRST),
             ("bridge_waited_for_credit", W_CREDIT_WAIT),
             ("two_reads_coalesced_in_one_frame", W_COALESCED),
+            ("local_sink_stuck_other_direction_judged", W_STUCK_LOCAL_SINK),
         ],
     };
-    rep.rule = "psim: real endpoint running MuxStream::into_copy_bidirectional_with_buf over a scripted AsyncBufRead+AsyncWrite; every call asks the explorer: fill_buf -> {3 bytes, 1 byte, Pending, Err} / at the end {EOF, Pending, Err}; write -> {all, 1 byte, Pending, Err}; flush, shutdown -> {Ok, Pending, Err}; a Pending becomes ready through a later explorer step. The multiplexor peer is a raw peer playing {data, Finish, Reset, prompt or withheld Acknowledge} as explorer steps. All runs with <= e non-default environment answers and <= k scheduling deviations. Oracle at every step: Push payloads on the wire are a prefix of consumed local bytes, bytes written locally are a prefix of the peer's Push payloads, frames <= window + returned credit, no spurious half-close; at quiescence: the bridge has completed; Ok((r,w)) only with everything relayed, Finish sent, local shutdown done and exact counts; after an injected Err the bridge has completed with that error without any further external event; credit == window + returned - frames".into();
+    rep.rule = "psim: real endpoint running MuxStream::into_copy_bidirectional_with_buf over a scripted AsyncBufRead+AsyncWrite; every call asks the explorer: fill_buf -> {3 bytes, 1 byte, Pending, Err} / at the end {EOF, Pending, Err}; write -> {all, 1 byte, Pending, Err}; flush, shutdown -> {Ok, Pending, Err}; a Pending becomes ready through a later explorer step. The multiplexor peer is a raw peer playing {data, Finish, Reset, prompt or withheld Acknowledge} as explorer steps. All runs with <= e non-default environment answers and <= k scheduling deviations. Oracle at every step: Push payloads on the wire are a prefix of consumed local bytes, bytes written locally are a prefix of the peer's Push payloads, frames <= window + returned credit, no spurious half-close; at quiescence: the bridge has completed (in the two scenarios whose local sink is stuck: the local->mux direction has relayed everything and sent Finish all the same); Ok((r,w)) only with everything relayed, Finish sent, local shutdown done and exact counts; after an injected Err the bridge has completed with that error without any further external event; credit == window + returned - frames".into();
     rep.assumptions = vec![
         "a local write returning Ok(0) for a non-empty buffer is outside the alphabet (the bridge would spin; sockets do not do this)".into(),
-        "a Pending local operation eventually becomes ready (an execution ends only when nothing is enabled)".into(),
+        "a Pending local operation eventually becomes ready (an execution ends only when nothing is enabled), except in the two 'local application stops reading' scenarios, where the local write (or flush) stays Pending for ever and only the opposite direction is judged".into(),
     ];
     run_cases(args, &mut rep, cases, &plan);
     rep
